@@ -21,6 +21,7 @@ def slice_keys(n):
             if norm(a, 0) <= norm(b, n):
                 spell.append({"kind": "slice", "a": [] if a is None else [a], "b": [] if b is None else [b]})
     for k in range(-n, n):
+        F_k = gen.feat(101, k)          # independent feature choices per case (gen.feat)
         spell.append({"kind": "scalar", "a": [k], "b": []})
     return spell
 
